@@ -189,6 +189,21 @@ def ops_table(ws):
         return (lambda: (npstats.hs(spec, f, d), npstats.dm(spec, d), npstats.mom1(spec, d))), [spec, f, d]
 
     T["npstats"] = np_hs
+    for meth in ("nearest", "idw", None):
+        def sel_nd(ds, rng, meth=meth):
+            # query given as float64 ndarrays (views of a caller buffer) in the OTHER longitude convention than the dataset
+            d180 = ds.assign(lon=((ds.lon + 180) % 360) - 180)
+            buf = np.zeros(8)
+            buf[:2] = [(float(d180.lon[0]) % 360) + 0.05, (float(d180.lon[-1]) % 360) - 0.05]
+            if meth is None:
+                buf[:2] = [float(d180.lon[0]) % 360, float(d180.lon[-1]) % 360]
+            if not (buf[:2] > 180).any():
+                buf[0] = 181.0 if meth != None else buf[0]
+            lons = buf[:2]
+            lats = np.array([float(d180.lat[0]), float(d180.lat[-1])])
+            kw = dict(method=meth, tolerance=400.0)
+            return (lambda: d180.spec.sel(lons, lats, **kw).compute()), [d180, buf, lons, lats, kw]
+        T[f"sel_ndarray({meth})"] = sel_nd
     for meth in ("nearest", "idw", "bbox", None):
         def sel(ds, rng, meth=meth):
             lons = [float(ds.lon[0]) + 0.1, float(ds.lon[-1]) - 0.1]
@@ -259,6 +274,22 @@ def ops_table(ws):
             return (lambda: getattr(d1.spec, name)(path, **kw2)), [d1, kw2]
         return f
 
+    def writer_scalar_pos(name, **kw):
+        # one site, lon/lat stored as scalar data variables (no site dimension): e.g. a single moored buoy
+        def f(ds, rng):
+            tmp.mkdir(parents=True, exist_ok=True)
+            path = str(tmp / f"out1_{name}")
+            d1 = ds.isel(site=[0]).drop_vars(["lon", "lat"])
+            d1["lon"] = float(ds.lon[0])
+            d1["lat"] = float(ds.lat[0])
+            kw2 = dict(kw)
+            if name == "to_octopus":
+                kw2["fcut"] = float(ds.freq[2])
+            return (lambda: getattr(d1.spec, name)(path, **kw2)), [d1, kw2]
+        return f
+
+    T["to_swan(scalar lon/lat)"] = writer_scalar_pos("to_swan")
+    T["to_octopus(scalar lon/lat)"] = writer_scalar_pos("to_octopus")
     T["to_swan"] = writer("to_swan")
     T["to_swan(ntime)"] = writer("to_swan", ntime=1)
     T["to_octopus"] = writer("to_octopus", fcut=None)
